@@ -644,6 +644,27 @@ def apalache_inductive():
     return info
 
 
+def apalache_disjoint(tier):
+    """C13 / C18 at the design level beyond TLC's graphs: for ANY slot sequence with pairwise different
+    keys and ANY request of pairwise different keys (sizes below), the transcribed one-pass stack
+    algorithm of get_disjoint_unchecked_mut never overflows its stack, splits at strictly increasing
+    indices and hands every position the slot a plain scan finds."""
+    n, j = (6, 3) if tier == "quick" else (10, 4)
+    d = os.path.join(WORK, "apalache-disj")
+    shutil.rmtree(d, ignore_errors=True)
+    os.makedirs(d)
+    src = open(os.path.join(SPEC, "MapDisj.tla")).read().replace("Gen(10)", "Gen(%d)" % n).replace("Gen(4)", "Gen(%d)" % j)
+    open(os.path.join(d, "MapDisj.tla"), "w").write(src)
+    cmd = ["timeout", "2400", "apalache-mc", "check", "--init=Init", "--inv=Inv", "--length=0", "MapDisj.tla"]
+    t0 = time.time()
+    p = sh(cmd, cwd=d, timeout=2500, check=False)
+    if "The outcome is: NoError" not in p.stdout:
+        raise ToolError("Apalache does not confirm the disjoint-borrow invariant:\n%s" % p.stdout[-1500:])
+    shutil.rmtree(d, ignore_errors=True)
+    return {"module": "spec/MapDisj.tla", "slots_up_to": n, "request_up_to": j, "keys": "arbitrary integers", "outcome": "NoError",
+            "cmd": " ".join(cmd[2:]), "wall_s": round(time.time() - t0, 1)}
+
+
 def nostd_probe():
     """C06, compile-time clause: the crate builds without the standard library.
     Build the library alone with default features (where #![no_std] must be in effect)
@@ -701,6 +722,8 @@ def run_check(pid, tier, seed):
         failures.extend(fl)
     if pid in ("C05", "C03"):
         summary["apalache_inductive_invariant"] = apalache_inductive()
+    if pid in ("C13", "C18"):
+        summary["apalache_disjoint"] = apalache_disjoint(tier)
     gate = GATES.get(pid, {pid, "CRASH"}) | {"SPEC"}
     # (a rejected trace event is attributed exactly; the widened gates apply to replayed transitions only;
     #  but a rejection that no check running this very trace job would report is never dropped silently)
@@ -745,6 +768,7 @@ def write_evidence(pid, tier, seed, summary, nviol, wall, others):
             "op_counts": summary["op_counts"], "other_property_failures_seen": others,
             "nostd_probe": summary.get("nostd_probe"), "sweep": summary.get("sweep"), "element_shapes_edges": summary.get("element_shapes"),
             "apalache_inductive_invariant": summary.get("apalache_inductive_invariant"),
+            "apalache_disjoint": summary.get("apalache_disjoint"),
             "explanation": "TLC exhaustively explored the stated constants checking the invariants in every state and "
                            "emitted every (state, operation) transition; each emitted transition was replayed against the real crate "
                            "from a canonical construction and along random walks, in debug and release builds.",
@@ -770,7 +794,7 @@ def main():
             os.makedirs(WORK, exist_ok=True)
             build_all(["debug", "release", "asan"])
             for f in sorted(os.listdir(SPEC)):
-                if f == "MapInd.tla":      # typed for Apalache (EXTENDS Apalache): checked by its own type checker
+                if f in ("MapInd.tla", "MapDisj.tla"):      # typed for Apalache (EXTENDS Apalache): checked by its own type checker
                     p = sh(["timeout", "300", "apalache-mc", "typecheck", f], cwd=SPEC, timeout=400, check=False)
                     shutil.rmtree(os.path.join(SPEC, "_apalache-out"), ignore_errors=True)
                     if "Type checker [OK]" not in p.stdout and "EXITCODE: OK" not in p.stdout:
